@@ -223,7 +223,7 @@ def build():  # noqa: F811
     EMPTY, mok, mvars, bind = d["EMPTY"], d["mok"], d["mvars"], d["bind"]
     # ---- AnyMatcher.__new__: only the unnamed matcher is shared -----------------------------------------
     A(Contract(f"{PM_}:AnyMatcher.__new__", params={"cls": "py:cls", "args": "Tuple[]", "kwargs": "Kwargs"}, returns="Matcher", props=P,
-               globals={"INSTANCE": "Opt[Matcher]"},
+               globals={"INSTANCE": "Opt[Matcher]"}, modifies=["INSTANCE"],
                ensures=["implies(kw_name(kwargs) is not None, result != old(INSTANCE) and INSTANCE == old(INSTANCE))",
                         "implies(kw_name(kwargs) is None, INSTANCE == result)",
                         "implies(kw_name(kwargs) is None and old(INSTANCE) is not None, result == old(INSTANCE))"],
@@ -236,7 +236,7 @@ def build():  # noqa: F811
     lastm.rule("m_last-snoc", 0, "snoc")(lambda a, p: p[1])
     sf["m_butlast"], sf["m_last"] = butlast, lastm
     A(Contract(f"{PM_}:SequenceMatcher.__post_init__", params={"self": "Matcher"}, props=P,
-               globals={"S_matchers": "Seq[Matcher]", "S_tail": "Opt[Matcher]"},
+               globals={"S_matchers": "Seq[Matcher]", "S_tail": "Opt[Matcher]"}, modifies=["S_matchers", "S_tail"],
                raises=[("RuntimeError", "len(S_matchers) == 0")],
                ensures=["implies(is_any(m_last(old(S_matchers))), S_tail == m_last(old(S_matchers)) and S_matchers == m_butlast(old(S_matchers)))",
                         "implies(not is_any(m_last(old(S_matchers))), S_tail == old(S_tail) and S_matchers == old(S_matchers))"],
